@@ -10,12 +10,19 @@ import (
 )
 
 // C24 for the listing view: for every cursor position and every granted height
-// from the declared minimum to the declared maximum, rendering never crashes
+// from the declared minimum to three lines above the declared maximum, rendering never crashes
 // and never writes more lines than granted.
 func VerifC24LinesView() {
-	words := rvprog.ThreeBlocks
-	if sym.Choose(2) == 1 {
+	var words []uint32
+	switch sym.Choose(4) {
+	case 0:
+		words = rvprog.ThreeBlocks
+	case 1:
 		words = rvprog.TwoBlocks
+	case 2:
+		words = rvprog.ThreeBlocks[:1] // a listing shorter than the declared minimum height
+	default:
+		words = rvprog.ThreeBlocks[:2]
 	}
 	code, err := rvprog.Build(words, rvprog.Base)
 	sym.Assert(err == nil, "program builds")
@@ -26,9 +33,14 @@ func VerifC24LinesView() {
 	cur := sym.Int("cursor")
 	sym.Assume(sym.And(cur >= 0, cur < v.Lines.Len()))
 	sym.Assert(v.Cursor.Set(cur) == nil, "cursor inside the listing")
+	// every height from the declared minimum up to a few lines above the
+	// declared maximum (a caller may grant more than the view can use)
 	lo, hi := v.MinLines(), v.MaxLines()
-	sym.Assert(lo <= hi, "declared minimum does not exceed the declared maximum")
-	n := lo + sym.Choose(hi-lo+1)
+	if hi < lo {
+		hi = lo
+		sym.Reach("listing-shorter-than-minimum")
+	}
+	n := lo + sym.Choose(hi-lo+1+3)
 	sym.ResetOutput()
 	var perr error
 	sym.NoPanic(func() { perr = v.Print(n) })
